@@ -1905,13 +1905,15 @@ class DerivIntExchange(Rule):
 
     def eval(self, e: Expr, ctx: Context) -> Expr:
         if e.is_deriv() and e.body.is_integral():
+            if e.body.lower.contains_var(e.var) or e.body.upper.contains_var(e.var):
+                raise AssertionError("DerivIntExchange: bounds depend on the differentiation variable")
             return Integral(e.body.var, e.body.lower, e.body.upper, Deriv(e.var, e.body.body))
         elif e.is_deriv() and e.body.is_indefinite_integral():
             return IndefiniteIntegral(e.body.var, Deriv(e.var, e.body.body), e.skolem_args)
         elif e.is_indefinite_integral() and e.body.is_deriv():
             return Deriv(e.body.var, IndefiniteIntegral(e.var, e.body.body, e.skolem_args))
         elif e.is_integral() and e.body.is_deriv():
-            return Deriv(e.body.var, Integral(e.var, e.upper, e.lower, e.body.body))
+            return Deriv(e.body.var, Integral(e.var, e.lower, e.upper, e.body.body))
         else:
             return e
 
